@@ -68,6 +68,16 @@ def solver_gave_up(ob, ctx):
     if type(ob.wrapper).__name__ == "MosekWrapper" and ob.status != "optimal":
         ctx.label("inconclusive:standin-status-%s" % ob.status)
         return True
+    if ob.opts.get("drh") and type(ob.exc).__name__ == "LinAlgError":
+        # the log-det step inverts G + eps I: with a Gram matrix of size 1e8 and more (a numerically unbounded model on which the
+        # solver nevertheless reports 'optimal') the sum is singular in floating point - a solver outcome, not a PEPit one
+        try:
+            G = np.asarray(ob.wrapper.get_primal_variables()[0], dtype=float)
+            if float(np.max(np.abs(G))) > 1e8:
+                ctx.label("inconclusive:heuristic-on-a-numerically-unbounded-gram")
+                return True
+        except Exception:  # noqa
+            pass
     if ob.opts.get("drh") and ob.status not in ("optimal", None):
         # (with or without a Gram matrix: after an 'optimal_inaccurate' SCS re-solve the Gram matrix can have eigenvalues of
         # 1e11, and the next logdet step then fails to invert G + eps I)
